@@ -293,7 +293,13 @@ func (vc *VC) cellsWrittenIn(fr *Frame, li *loopInfo) []*ssa.Alloc {
 				if mc, ok := x.Call.Value.(*ssa.MakeClosure); ok {
 					scanFn(mc.Fn.(*ssa.Function), mc.Bindings, 0)
 				}
-				// arguments that are addresses of locals may be written by the callee
+				// arguments that are addresses of locals may be written by the callee,
+				// unless the callee's contract declares that it modifies nothing
+				if sc := x.Call.StaticCallee(); sc != nil {
+					if fi := vc.eng.contractOf(origin(sc)); fi != nil && len(fi.C.Modifies) == 0 {
+						continue
+					}
+				}
 				for _, a := range x.Call.Args {
 					if _, ok := a.Type().Underlying().(*types.Pointer); ok {
 						add(a)
